@@ -48,7 +48,7 @@ func c16Regression(c *mon.Ctx) {
 
 func runC16(c *mon.Ctx) {
 	c16Regression(c)
-	n := c.Share(c.Scale(30_000, 1_000_000))
+	n := c.Share(c.Scale(90_000, 1_000_000))
 	for i := 0; i < n; i++ {
 		c16Case(c, "SetRequire", fmt.Sprintf("sr%d", i))
 		c16Case(c, "SetRequireSeparateIndirect", fmt.Sprintf("ss%d", i))
